@@ -101,7 +101,11 @@ class Runner:
             if idx == n or idx == -1:       # end of the function body (normal, or about to raise)
                 self.emit(e='leave', t=t, b=bno, f=key, **state())
 
-        rec = self.b.build(prog, hook=hook, post=post)
+        try:
+            rec = self.b.build(prog, hook=hook, post=post)
+        except Exception as e:
+            # anything unexpected around a build is an observation (a build that did not deliver), never a harness crash
+            rec = dict(raised=1, err='unexpected-' + type(e).__name__, stage='', sha='', lost=0)
         self.emit(e='exit', t=t, b=bno, f=key, raised=rec['raised'], err=rec['err'] + ('@' + rec['stage'] if rec['stage'] else ''),
                   sha=rec['sha'], lost=rec.get('lost', 0))
         return rec
